@@ -15,6 +15,7 @@ import (
 	"go.uber.org/zap"
 
 	"github.com/ava-labs/hypersdk/event"
+	"github.com/ava-labs/hypersdk/internal/verifhook"
 )
 
 var _ block.StateSyncableVM = (*VM[Block, Block, Block])(nil)
@@ -39,6 +40,7 @@ func (v *VM[I, O, A]) StartStateSync(ctx context.Context, block I) error {
 // FinishStateSync completes dynamic state sync mode and sets the last accepted block to
 // the given input/output/accepted value.
 func (v *VM[I, O, A]) FinishStateSync(ctx context.Context, input I, output O, accepted A) error {
+	verifhook.AwaitLock("snow.chainLock.FinishStateSync", 0, &v.chainLock)
 	v.chainLock.Lock()
 	defer v.chainLock.Unlock()
 
